@@ -744,12 +744,16 @@ func main() {
 	for _, f := range fams {
 		pending := map[string]*Case{}
 		nrec := 0
+		t0 := time.Since(env.Start).Seconds()
 		res := env.MustTLC(common.TLCRun{Dir: "C19", Module: f.module, Config: f.config, Extra: f.extra, Timeout: f.timeout,
 			Seed: env.Seed, OnLine: func(b []byte) {
 				var raw rawRec
 				rec := &Rec{}
 				if json.Unmarshal(b, &raw) != nil || json.Unmarshal(b, rec) != nil || rec.Alts < 1 {
 					common.Inconclusive("property=C19 unreadable record from TLC: %.200s", b)
+				}
+				if nrec == 0 {
+					fmt.Printf("first behaviour from TLC at %.1fs\n", time.Since(env.Start).Seconds())
 				}
 				nrec++
 				key := raw.Fam + string(raw.Kinds) + string(raw.Bodies)
@@ -773,7 +777,7 @@ func main() {
 		}
 		rep.AddTLC(res)
 		tlcInfo[f.name] = map[string]interface{}{"states": res.Distinct, "behaviours": nrec, "wall_s": res.Wall.Seconds()}
-		fmt.Printf("run %s: %d states, %d behaviours, TLC %.1fs (at %.1fs)\n", f.name, res.Distinct, nrec, res.Wall.Seconds(), time.Since(env.Start).Seconds())
+		fmt.Printf("run %s: %d states, %d behaviours, started at %.1fs, TLC %.1fs (at %.1fs)\n", f.name, res.Distinct, nrec, t0, res.Wall.Seconds(), time.Since(env.Start).Seconds())
 	}
 	close(jobs)
 	wg.Wait()
